@@ -202,7 +202,15 @@ pub fn gen_watch(rng: &mut Rng, o: &WatchOpts) -> Scenario {
             } else {
                 Fault { site: format!("proc.exit:{}", sc.sim_id(t.0, &t.1)), occurrence: occ, kind: "exit=2".into() }
             };
+            let exit_fault = f.site.starts_with("proc.exit");
             inv.plan.faults.push(f);
+            // half of the time the user keeps editing while that very run is in progress
+            if exit_fault && rng.chance(50) {
+                if let Some(op) = gen_watch_op(rng, &sc, &[t.clone()], 900 + occ as u64) {
+                    let pos = inv.plan.events.len();
+                    inv.plan.events.insert(pos, PlanEvent { id: "during-failing-run".into(), kind: PlanEventKind::Fs { ops: vec![op] }, gate: Gate::Running { id: sc.sim_id(t.0, &t.1), nth: occ } });
+                }
+            }
         }
     }
     if rng.chance(o.watch_fail_pct) {
